@@ -561,8 +561,7 @@ Print Assumptions C01_corridor_history_steps_turn.
 
 (* THE ERROR ARM.  An in-protocol history (steps only while an episode runs) whose caller answers
    only for the agents it was asked for, under the all-step or the turn-based manager, from ANY start
-   state whose flag is clear, with admissible reset draws: no call raises; while an episode runs
-   the invariant holds; and every agent that acts in a step is known and has NOT arrived in the
+   state whose flag is clear, with admissible reset draws: no call raises; the invariant holds from the first reset on; and every agent that acts in a step is known and has NOT arrived in the
    state the step starts from -- `self.corridor[agent.position + 1]` with position = end-1 is never
    evaluated.  (Without `polite` the turn-based manager accepts an action for an agent that arrived
    on its own turn and has not been reported yet: IndexError.) *)
@@ -572,13 +571,31 @@ Theorem C01_corridor_no_error_arm : forall cend n k s0 cs, k = MAll \/ k = MTurn
   polite [] (trace (corridor_sim cend n) k (init s0) Fresh cs) ->
   forall e, In e (trace (corridor_sim cend n) k (init s0) Fresh cs) ->
     co_bad (m_sim (te_pre e)) = false /\ co_bad (m_sim (te_post e)) = false /\
-    (te_ph e = Live -> cinv cend n (m_sim (te_pre e))) /\
-    (next_phase (te_ph e) (te_resp e) = Live -> cinv cend n (m_sim (te_post e))) /\
+    (te_ph e <> Fresh -> cinv cend n (m_sim (te_pre e))) /\
+    (next_phase (te_ph e) (te_resp e) <> Fresh -> cinv cend n (m_sim (te_post e))) /\
     forall acts sh, te_call e = CStep acts sh ->
       forall a, In a (map fst acts) \/ In a (map fst sh) ->
         (a < n)%nat /\ co_done cend (m_sim (te_pre e)) a = false.
 Proof. exact corridor_no_error_arm. Qed.
 Print Assumptions C01_corridor_no_error_arm.
+
+(* the extracted checker 2502, snapshot clauses (2511 flag, 2512 shape, 2513 array <-> positions, 2514
+   distinct cells): `snap_chk` answers 0 on every state with the invariant, hence on every record of
+   the model's own run (wire entry 2501 = run_snap) of a polite in-protocol history that starts with a
+   reset.  (The response clauses 2515-2522 have no model theorem; see design/E2E.md.) *)
+Theorem C01_corridor_snap_chk_complete : forall cend n s,
+  0 <= cend -> cinv cend n s -> snap_chk cend n (snap_of s) = 0.
+Proof. exact snap_chk_complete. Qed.
+Print Assumptions C01_corridor_snap_chk_complete.
+
+Theorem C01_corridor_chk_snapshots_partial : forall cend n k s0 cs, 0 <= cend -> k = MAll \/ k = MTurn ->
+  co_bad s0 = false -> (forall j, admb cend n (co_draws s0 j) = true) -> (k = MTurn -> n <> O) ->
+  in_protocol (trace (corridor_sim cend n) k (init s0) Fresh (CReset :: cs)) ->
+  polite [] (trace (corridor_sim cend n) k (init s0) Fresh (CReset :: cs)) ->
+  forall r sn, In (r, sn) (fst (run_snap (corridor_sim cend n) (fun s => s) k (init s0) (CReset :: cs))) ->
+    sn_bad sn = false /\ snap_chk cend n sn = 0.
+Proof. exact corridor_chk_snapshots. Qed.
+Print Assumptions C01_corridor_chk_snapshots_partial.
 
 (* C16_never_fails over the corridor: episode generation never acts for a finished agent *)
 Theorem C01_corridor_trainer_never_fails :
